@@ -6,20 +6,23 @@
    Ghost fields used in the statements (all append-only, see [step]):
      accpre s   ids whose Offer was accepted before Shutdown was called     (accpre_spec reads it off the trace)
      begun s    ids handed to the export function, one entry per call that contains the id
-     ended s    the same for calls that have returned;   failures s = number of calls that returned an error
+     ended s    the same for calls that have returned;   failures s = number of calls that returned an error,
+                failedids s = the ids those failed calls contained
      finished s (id, result of the sender chain) once the queue's Done callback has run
      store s    persistent queue: ids whose body is in the storage *)
 From Verif Require Import Common.Base C03.Model C03.Proofs C03.Proofs2 C03.Proofs3.
 
 (* ---- in-memory queue ---------------------------------------------------------------------------
    When Shutdown has returned, every request accepted before Shutdown was called has been handed to the
-   export function at least once — exactly once if no export call of the run failed — its Done callback
-   has run, and every export call has returned. *)
+   export function at least once — exactly once if no export call of the run failed, and more precisely
+   exactly once if no export call CONTAINING that request failed ([failedids]) — its Done callback has
+   run, and every export call has returned. *)
 Theorem shutdown_drains_memory : forall c ls s,
   c_persist c = false -> 1 <= c_ncons c ->
   run c (init c) ls = Some s -> pc s = PReturned ->
   (forall i, In i (accpre s) ->
-     1 <= cnt i (begun s) /\ (failures s = 0 -> cnt i (begun s) = 1) /\ exists r, In (i, r) (finished s))
+     1 <= cnt i (begun s) /\ (failures s = 0 -> cnt i (begun s) = 1) /\
+     (~ In i (failedids s) -> cnt i (begun s) = 1) /\ exists r, In (i, r) (finished s))
   /\ (forall i, cnt i (ended s) = cnt i (begun s)).
 Proof. exact drains_memory_l. Qed.
 
